@@ -100,7 +100,7 @@ CLAIMED["C14"] = (
     "into a Span comes from tokenizer position fields, byte offsets change only by a character's len_utf8 and only "
     "`advance` moves the tokenizer offset (by slicing the input); instructions are emitted without a line record "
     "only at reviewed sites.  Decides that locations are attached on all error paths and that reported ranges are "
-    "character-aligned by construction; that the line is the *correct* one (shift-by-N) is value-level and not decided. Also: (F5) interprocedural FRESH/STALE analysis of the code generator: a fallible instruction is never emitted with the plain add() before the generator's line was set for the current statement; (F6) expand_span refuses to invert a span, or every path to it consumes a token; the function that moves the lexer offset also counts the newlines it skips (found by the write, not by name). Later additions: the error formatting code slices source text only at text-derived byte offsets (never at a character column). (F7) the pooled span-stack buffer is cleared when taken and every compile_* function leaves the span stack as it found it, so a recorded range always belongs to the template being compiled.",
+    "character-aligned by construction; that the line is the *correct* one (shift-by-N) is value-level and not decided. Also: (F5) interprocedural FRESH/STALE analysis of the code generator: a fallible instruction is never emitted with the plain add() before the generator's line was set for the current statement; (F6) expand_span refuses to invert a span, or every path to it consumes a token; the function that moves the lexer offset also counts the newlines it skips (found by the write, not by name). Later additions: the error formatting code slices source text only at text-derived byte offsets (never at a character column). (F7) the pooled span-stack buffer is cleared when taken and every compile_* function leaves the span stack as it found it, so a recorded range always belongs to the template being compiled. (F8) set_line never takes a span read back from the span stack; (F9) tokenizer errors from helper functions get the tokenizer's position.",
     "DESIGN.md §3 C14",
     "std str slicing panics on non-boundaries (so a wrong byte count cannot produce a bad range silently).")
 
@@ -127,7 +127,7 @@ CLAIMED["C08"] = (
     "arithmetic; integer literals convert through from_str_radix with the error reported; every value `neg` returns "
     "is the result of a negation.  This decides 'no wrap, no silent truncation, no dropped sign, one // and % "
     "convention' for all operand pairs and storage widths; numeric values themselves and exact int/float comparison "
-    "are not decided. Also: inside the operator functions no arithmetic helper of a type narrower than 128 bits decides the outcome (wrapping/saturating forms reported; the None of a narrow checked_* must fall through to the 128-bit computation). Later additions: (N7) in as_f64 every path to None passes the cast round trip or its saturation bound, and every round trip is dominated by rv < T::MAX as f64. (N8) the mixed float/integer orderings cast the float to the integer type only below a dominating comparison with the type's maximum.",
+    "are not decided. Also: inside the operator functions no arithmetic helper of a type narrower than 128 bits decides the outcome (wrapping/saturating forms reported; the None of a narrow checked_* must fall through to the 128-bit computation). Later additions: (N7) in as_f64 every path to None passes the cast round trip or its saturation bound, and every round trip is dominated by rv < T::MAX as f64. (N8) the mixed float/integer orderings cast the float to the integer type only below a dominating comparison with the type's maximum. (N9) the checked remainder's None arm returns 0 for a divisor of -1 and an error otherwise.",
     "DESIGN.md §3 C08",
     "One known finding (neg of 2^127 keeps the sign positive) is pinned by an existing snapshot and therefore listed, not repaired.")
 
@@ -170,7 +170,7 @@ CLAIMED["C15"] = (
     "resetting guard; filters/tests/globals are mutated only through Arc::make_mut.  Thorough adds rustc-checked "
     "witnesses (Send+Sync, no mutation while a Template borrows the Environment, with compiling twins).  These are "
     "the shape conditions that rule out history leaking into later renders; equality of renders across histories "
-    "and thread interleavings are not executed. Also: explicit additions use an overwriting map API and the lazy loader fill a keep-first API (reviewed API table); no field reachable from Environment puts an interior-mutable container behind an Arc (clones share only immutable state).",
+    "and thread interleavings are not executed. Also: explicit additions use an overwriting map API and the lazy loader fill a keep-first API (reviewed API table); no field reachable from Environment puts an interior-mutable container behind an Arc (clones share only immutable state). (U9) every add_*/set_* method of Environment stores what it was given on every path to a normal return.",
     "DESIGN.md §3 C15",
     "Per-render state lives in State and the borrow checker forbids mutation during renders (witnessed).")
 
@@ -184,7 +184,7 @@ CLAIMED["C12"] = (
     "Result of each of the ~60 helper call sites is returned/propagated; a value of type UndefinedBehavior is only "
     "passed to the reviewed functions (never into data); is defined / is undefined / default never assert their "
     "operand.  Together a non-interference argument for 'stricter modes only add errors' over all programs and "
-    "contexts; per-site behaviour of third-party callbacks is assumed mode-independent. Also: inside the interpreter a stack value is iterated only through UndefinedBehavior::try_iter (two reviewed exceptions); every path through the Emit handler passes the {Strict, SemiStrict} test or Environment::format. Later additions: (M8) in the GetAttr / GetItem handlers a failed lookup passes handle_undefined(x.is_undefined()) for the container x before anything is pushed. (M9) the constant folder never produces an undefined value (its effect is decided by the mode at run time).",
+    "contexts; per-site behaviour of third-party callbacks is assumed mode-independent. Also: inside the interpreter a stack value is iterated only through UndefinedBehavior::try_iter (two reviewed exceptions); every path through the Emit handler passes the {Strict, SemiStrict} test or Environment::format. Later additions: (M8) in the GetAttr / GetItem handlers a failed lookup passes handle_undefined(x.is_undefined()) for the container x before anything is pushed. (M9) the constant folder never produces an undefined value (its effect is decided by the mode at run time). (M10) builtin filters/functions that iterate or print a raw Value operand ask the undefined behaviour first (reviewed table for the rest); M8 covers slicing.",
     "DESIGN.md §3 C12",
     "Host-registered filters/functions/objects are assumed not to consult the undefined behavior.")
 
